@@ -46,6 +46,11 @@ def A(*idx, tag=None, **k):
     return dict(ret=idx, tag=tag, **k)
 
 
+def C(*idx, **k):
+    """fresh container holding (elements of) the given arguments"""
+    return dict(ret=(), elems=idx, tag='list', **k)
+
+
 def UF(nin):
     """numpy ufunc with `nin` inputs: positional argument nin is `out`"""
     return dict(ret=(), tag='val', nin=nin)
@@ -117,7 +122,7 @@ METHODS = {
     'set_index': F(), 'reindex': F(), 'dropna': F(), 'clip': F(),
     'intersection': F(tag=None), 'difference': F(tag=None), 'union': F(tag=None),
     'split': F(tag='list'), 'join': F(tag=None), 'format': F(tag=None), 'rjust': F(tag=None),
-    'keys': A('recv'), 'items': A('recv'), 'values_': A('recv'), 'get': A('recv', 1),
+    'keys': C('recv'), 'items': C('recv'), 'get': A(1, load=('recv',)),
     'as_euler': F(), 'as_matrix': F(), 'as_quat': F(), 'as_rotvec': F(), 'inv': F(tag='rot'),
     'derivative': A('recv', tag='callable'), 'antiderivative': A('recv', tag='callable'),
     # containers / in-place
@@ -125,8 +130,8 @@ METHODS = {
     'extend': dict(ret=(), tag=None, mut=('recv',), store=(0,)),
     'insert': dict(ret=(), tag=None, mut=('recv',), store=(1,)),
     'update': dict(ret=(), tag=None, mut=('recv',), store=('all',)),
-    'setdefault': dict(ret=('recv', 1), tag=None, mut=('recv',), store=(1,)),
-    'pop': dict(ret=('recv',), tag=None, mut=('recv',)), 'remove': F(mut=('recv',)), 'clear': F(mut=('recv',)),
+    'setdefault': dict(ret=(1,), load=('recv',), tag=None, mut=('recv',), store=(1,)),
+    'pop': dict(ret=(), load=('recv',), tag=None, mut=('recv',)), 'remove': F(mut=('recv',)), 'clear': F(mut=('recv',)),
     'reverse': F(mut=('recv',)), 'sort': F(mut=('recv',)), 'fill': F(mut=('recv',)), 'resize': F(mut=('recv',)),
     'put': F(mut=('recv',)), 'itemset': F(mut=('recv',)), 'setflags': F(mut=('recv',)), 'partition': F(mut=('recv',)),
     'byteswap': dict(ret=('recv',), tag='val', mut=('recv',)),
@@ -147,10 +152,10 @@ BUILTINS = {
     'len': F(tag=None), 'isinstance': F(tag=None), 'bool': F(tag=None), 'abs': F(), 'round': F(), 'type': F(tag=None),
     'range': F(tag=None), 'int': F(tag=None), 'float': F(tag=None), 'str': F(tag=None), 'all': F(tag=None),
     'any': F(tag=None), 'slice': F(tag=None), 'print': F(tag=None), 'repr': F(tag=None), 'hasattr': F(tag=None),
-    'max': A('all'), 'min': A('all'), 'list': A('all', tag='list'), 'tuple': A('all', tag='list'),
-    'dict': A('all', tag='list'), 'set': A('all', tag='list'), 'sorted': A('all', tag='list'),
-    'map': A('all'), 'zip': A('all'), 'reversed': A('all'), 'enumerate': A('all'), 'iter': A('all'), 'next': A('all'),
-    'sum': A('all'),
+    'max': A('all', load=('all',)), 'min': A('all', load=('all',)),
+    'list': C('all'), 'tuple': C('all'), 'dict': C('all'), 'set': C('all'), 'sorted': C('all'),
+    'map': C('all'), 'zip': C('all'), 'reversed': C('all'), 'enumerate': C('all'), 'iter': C('all'),
+    'next': A('all', load=('all',)), 'sum': A('all', load=('all',)),
     'ValueError': F(tag=None), 'TypeError': F(tag=None), 'AttributeError': F(tag=None), 'KeyError': F(tag=None),
     'NotImplementedError': F(tag=None), 'RuntimeError': F(tag=None), 'AssertionError': F(tag=None),
 }
@@ -160,7 +165,7 @@ EFFECT_KW = {'out', 'inplace', 'copy', 'where'}
 TRANSPARENT_DECORATORS = {'numba.njit', 'numba.jit'}
 
 # pyins names handled as library-like containers
-PYINS_SPECIAL = {'util.Bunch': A('all', tag='list')}
+PYINS_SPECIAL = {'util.Bunch': dict(ret=(), elems=(), store_all=True, tag='list')}
 
 # the documented exception: estimate state of sensor models handed to a filter
 ESTIMATE_SLOTS = ['inertial_sensor.EstimationModel.transform', 'inertial_sensor.EstimationModel.bias']
@@ -459,12 +464,15 @@ class FT:
         self.modroot = self.new('MODULE')
         self.groot = self.new('GLOBAL_RNG')
         self.osite = self.new('OWNED')
+        self.rsite = self.new('OWNREF')
+        self.rreach = self.new('RET_REACH')
         self.selfvar = None
         self.clsname = None
         self.slotroot = {}
         params = list(fi.params)
         self.f_params = [self.modroot]
         self.f_owned = []
+        self.f_ownref = []
         self.f_formals = []
         self.f_slots = []
         if fi.kind in ('method', 'property'):
@@ -473,19 +481,22 @@ class FT:
             self.env[sn] = self.selfvar
             self.tags[self.selfvar] = ('inst', fi.cls.cid)
             self.f_owned.append(self.selfvar)
-            pos0 = [self.selfvar]
+            pos0 = [self.new(sn + "'")]
             for attr, owner in sorted(fi.cls.all_slots().items()):
                 sname = f"{owner.cid}.{attr}"
                 v = self.new('SLOT_' + attr)
+                vd = self.new('SLOT_' + attr + "'")
                 self.slotroot[attr] = (sname, v)
-                info = self.slotinfo.get(sname, {})
-                if info.get('private', True):
+                cat = self.slotinfo.get(sname, {}).get('cat', 'private')
+                if cat == 'private':
                     self.f_owned.append(v)
-                    self.f_slots.append((sname, v))
+                    self.f_slots.append((sname, v, vd))
+                elif cat == 'ownref':
+                    self.f_ownref.append(v)
                 else:
                     self.f_params.append(v)
-                pos0.append(v)
-            self.f_formals.append(pos0)
+                pos0 += [v, vd]
+            self.f_formals += [[self.selfvar], pos0]
         elif fi.kind == 'classmethod':
             self.clsname = params.pop(0)
         self.explicit = params
@@ -493,9 +504,10 @@ class FT:
             v = self.new(p)
             self.env[p] = v
             self.f_params.append(v)
-            self.f_formals.append([v])
-        self.f_formals.append([self.modroot])
-        self.f_formals.append([self.groot])
+            self.f_formals += [[v], [self.new(p + "'")]]
+        self.f_formals += [[self.modroot], [self.new("MODULE'")]]
+        self.f_formals += [[self.groot], [self.new("GLOBAL_RNG'")]]
+        self.f_exact = list(range(0, len(self.f_formals), 2))
         self.locals = assigned_names(fi.node.body) | set(fi.params)
 
     # -- helpers
@@ -707,6 +719,7 @@ class FT:
         for s in sorted(set(slots)):
             self.emit('StateRead', s, v)
             self.emit('Assign', res, v)
+            self.emit('Load', res, v)
         for c in cattrs:
             self.emit('StateRead', f"{c.cid}.{attr}", self.modroot)
             self.emit('Assign', res, self.modroot)
@@ -714,6 +727,8 @@ class FT:
             self.emit('Assign', res, self.call_py(f, v, [], {}, node))
         if lib_alias:
             self.emit('Assign', res, v)
+            if self.tag(v) != 'val':
+                self.emit('Load', res, v)
             if not (slots or cattrs or props):
                 if attr in ATTR_KEEP_TAG or attr in ('T', 'values'):
                     if self.tag(v) == 'val' or attr in ('T', 'values'):
@@ -727,10 +742,20 @@ class FT:
         self.ev_slice(node.slice)
         if self.is_listlike(node.slice) and self.tag(v) != 'list':
             return self.fresh('idx', 'val')
+        if self.tag(v) == 'list':
+            res = self.fresh('elem')
+            if isinstance(node.slice, ast.Slice):
+                self.emit('Store', res, self.item_of(v))
+                self.tags[res] = 'list'
+            else:
+                self.emit('Load', res, v)
+            return res
         res = self.fresh('sub')
         self.emit('Assign', res, v)
         if self.tag(v) == 'val':
             self.tags[res] = 'val'
+        else:
+            self.emit('Load', res, v)
         return res
 
     def ev_BinOp(self, node):
@@ -743,6 +768,12 @@ class FT:
             return res
         if isinstance(node.op, (ast.BitAnd, ast.BitOr)) and ta == tb == 'mask':
             return self.fresh('mask', 'mask')
+        if isinstance(node.op, (ast.Add, ast.Mult)) and ta is None and tb is None:
+            # two values of unknown type: could be python lists (shallow concatenation)
+            res = self.fresh('binop?')
+            self.emit('Store', res, self.item_of(a))
+            self.emit('Store', res, self.item_of(b))
+            return res
         return self.fresh('binop', 'val')
 
     def ev_UnaryOp(self, node):
@@ -804,7 +835,7 @@ class FT:
             if g.is_async:
                 self.bad(node, "async comprehension")
             it = self.ev(g.iter)
-            self.bind_target(g.target, it, elementwise=False)
+            self.bind_target(g.target, self.item_of(it))
             for c in g.ifs:
                 self.ev(c)
         vs = [self.ev(e) for e in elts]
@@ -813,6 +844,18 @@ class FT:
         for v in vs:
             self.emit('Store', res, v)
         return res
+
+    def item_of(self, it):
+        x = self.fresh('item')
+        if self.tag(it) == 'list':
+            self.emit('Load', x, it)
+            return x
+        self.emit('Assign', x, it)
+        if self.tag(it) != 'val':
+            self.emit('Load', x, it)
+        else:
+            self.tags[x] = 'val'
+        return x
 
     def ev_ListComp(self, node):
         return self.comprehension(node, [node.elt])
@@ -855,6 +898,7 @@ class FT:
             if n in self.env:
                 v = self.env[n]
                 if self.tag(v) == 'callable':
+                    USED.add('callable')
                     return self.fresh('interp', 'val')
                 self.bad(node, "call of a local value that is not a classified callable object")
             if n in self.nested:
@@ -918,6 +962,7 @@ class FT:
                 return self.fresh('globalrng', 'val')
             if q not in LIB:
                 self.bad(node, f"library function {q} is not classified")
+            USED.add('lib:' + q)
             return self.lib_call(q, LIB[q], args, kws, None, node)
         self.bad(node, f"call of {r[0]}")
 
@@ -946,6 +991,7 @@ class FT:
         if cands:
             self.emit('Assign', res, self.call_many(cands, v, args, kws, node))
         if spec is not None:
+            USED.add('meth:' + attr)
             r = self.lib_call('.' + attr, spec, args, kws, v, node)
             self.emit('Assign', res, r)
             if not cands and self.tag(r) is not None:
@@ -1009,14 +1055,12 @@ class FT:
         full += [self.modroot, self.groot]
         temps = []
         for k, a in enumerate(full):
-            if new and k == 0:
-                temps.append(a)            # the object under construction itself
-                continue
             t = self.new('arg')
-            self.emit('Assign', t, a)
-            temps.append(t)
+            self.emit('Reach', t, a)
+            temps += [a, t]                # exact position, reachable-from position
         x = self.new(fi.fid.split('.')[-1] + '()')
-        self.emit('CallNew' if new else 'Call', x, fi.fid, tuple(temps))
+        x0 = self.new(fi.fid.split('.')[-1] + '()fresh')
+        self.emit('CallNew' if new else 'Call', x, fi.fid, tuple(temps), x0)
         if fi.fid not in self.callees:
             self.callees.append(fi.fid)
         return x
@@ -1086,6 +1130,15 @@ class FT:
         for i in spec.get('ret', ()):
             for w in pick(i):
                 self.emit('Assign', res, w)
+        for i in spec.get('load', ()):
+            for w in pick(i):
+                self.emit('Load', res, w)
+        for i in spec.get('elems', ()):
+            for w in pick(i):
+                self.emit('Store', res, self.item_of(w))
+        if spec.get('store_all'):
+            for w in pick('all'):
+                self.emit('Store', res, w)
         for i in spec.get('mut', ()):
             for w in pick(i):
                 self.emit('Mutate', w)
@@ -1111,9 +1164,7 @@ class FT:
             self.env[t.id] = v
         elif isinstance(t, (ast.Tuple, ast.List)):
             for e in t.elts:
-                x = self.fresh('unpack')
-                self.emit('Assign', x, v)
-                self.bind_target(e, x)
+                self.bind_target(e, self.item_of(v))
         elif isinstance(t, ast.Starred):
             self.bind_target(t.value, v)
         elif isinstance(t, ast.Attribute):
@@ -1247,7 +1298,7 @@ class FT:
         if not envs:
             return None
         out = {}
-        for n in set().union(*envs):
+        for n in sorted(set().union(*envs)):
             vs = []
             for e in envs:
                 if n in e and e[n] not in vs:
@@ -1321,16 +1372,12 @@ class FT:
             if len(its) == len(s.target.elts):
                 def header2():
                     for t, iv in zip(s.target.elts, its):
-                        x = self.fresh('item')
-                        self.emit('Assign', x, iv)
-                        self.bind_target(t, x)
+                        self.bind_target(t, self.item_of(iv))
                 return self.loop(s, header2)
         it = self.ev(s.iter)
 
         def header():
-            x = self.fresh('item')
-            self.emit('Assign', x, it)
-            self.bind_target(s.target, x)
+            self.bind_target(s.target, self.item_of(it))
         return self.loop(s, header)
 
     def st_Break(self, s):
@@ -1437,15 +1484,15 @@ def public_fids(prog):
 # the solutions and summaries are emitted as hints and re-validated by Coq ([valid_hints],
 # [summary_ok], [check_fun]); the mirror only produces diagnostics and the slot classification.
 # ----------------------------------------------------------------------------------------------
-def expand_call(sm, x, args, new=False):
+def expand_call(sm, x, x0, args, new=False):
     def argn(i):
         return [args[i]] if i < len(args) else []
-    out = [('Fresh', x)]
+    out = [('Fresh', x0), ('Assign', x, x0)]
     for i in sm['mut']:
         out += [('Mutate', a) for a in argn(i)]
     for i in sm['ret']:
         for a in argn(i):
-            out += [('Assign', x, a), ('Store', x, a)]
+            out += [('Assign', x, a), ('Store', x0, a)]
     for i, j in sm['lnk']:
         out += [('Store', a, b) for a in argn(i) for b in argn(j)]
     if sm['rng']:
@@ -1467,7 +1514,7 @@ def prims(S, body):
         if st[0] in ('Call', 'CallNew'):
             if st[2] not in S:
                 return None
-            out += expand_call(S[st[2]], st[1], st[3], st[0] == 'CallNew')
+            out += expand_call(S[st[2]], st[1], st[4], st[3], st[0] == 'CallNew')
         else:
             out.append(st)
     return out
@@ -1476,7 +1523,7 @@ def prims(S, body):
 def solve(P, pt0, cont0):
     pt = {k: set(v) for k, v in pt0.items()}
     cont = {k: set(v) for k, v in cont0.items()}
-    flow = [s for s in P if s[0] in ('Fresh', 'Assign', 'Store')]
+    flow = [s for s in P if s[0] in ('Fresh', 'Assign', 'Load', 'Reach', 'Store')]
     changed = True
     while changed:
         changed = False
@@ -1486,52 +1533,80 @@ def solve(P, pt0, cont0):
                 if s[1] not in d:
                     d.add(s[1])
                     changed = True
-            elif s[0] == 'Assign':
+            elif s[0] in ('Assign', 'Load', 'Reach'):
                 src = pt.get(s[2])
                 if not src:
                     continue
-                add = set(src)
-                for o in src:
-                    add |= cont.get(o, set())
+                if s[0] == 'Assign':
+                    add = src
+                elif s[0] == 'Load':
+                    add = set()
+                    for o in src:
+                        add |= cont.get(o, set())
+                else:
+                    add = closure_of(cont, src)
                 d = pt.setdefault(s[1], set())
                 if not add <= d:
                     d |= add
                     changed = True
+                if s[0] == 'Reach':
+                    add = closure_of(cont, d)
+                    if not add <= d:
+                        d |= add
+                        changed = True
             else:
                 src = pt.get(s[2])
                 tgt = pt.get(s[1])
                 if not src or not tgt:
                     continue
-                add = set(src)
-                for o in src:
-                    add |= cont.get(o, set())
                 for o in tgt:
                     d = cont.setdefault(o, set())
-                    if not add <= d:
-                        d |= add
+                    if not src <= d:
+                        d |= src
                         changed = True
-        for o in list(cont):
-            d = cont[o]
-            add = set()
-            for o2 in d:
-                add |= cont.get(o2, set())
-            if not add <= d:
-                d |= add
-                changed = True
     return pt, cont
 
 
+def closure_of(cont, sites):
+    out = set(sites)
+    todo = list(out)
+    while todo:
+        o = todo.pop()
+        for o2 in cont.get(o, ()):
+            if o2 not in out:
+                out.add(o2)
+                todo.append(o2)
+    return out
+
+
 def solve_collapsed(f, P):
-    ps, os_, g = f['psite'], f['osite'], f['grng']
+    ps, os_, g, rs = f['psite'], f['osite'], f['grng'], f['rsite']
     pt0 = {p: {ps} for p in f['params']}
     pt0.update({o: {os_} for o in f['owned']})
+    pt0.update({o: {rs} for o in f['ownref']})
     pt0[g] = {g}
-    return solve(P, pt0, {ps: {ps}, os_: {os_}, g: {g}})
+    pt, cont = solve(P, pt0, {ps: {ps}, os_: {os_}, g: {g}, rs: {rs, ps}})
+    # the reserved variable OWNED carries the closure of everything the private roots may reach
+    pt[os_] = closure_of(cont, set().union(*([pt.get(o, set()) for o in f['owned']] or [set()])))
+    return pt, cont
 
 
 def solve_roots(f, P):
-    roots = [v for fm in f['formals'] for v in fm]
-    return solve(P, {r: {r} for r in roots}, {r: {r} for r in roots})
+    pt0, cont0 = {}, {}
+    for k in range(0, len(f['formals']), 2):
+        deep = f['formals'][k + 1][0]
+        for r in f['formals'][k]:
+            pt0[r] = {r}
+            cont0[r] = {deep}
+        for r in f['formals'][k + 1]:
+            pt0[r] = {r}
+            cont0[r] = {r} if r == deep or True else set()
+    # slot variables: content object v (exact), everything below it v'
+    for k in range(0, len(f['formals']), 2):
+        rr = f['formals'][k + 1]
+        for a, b in zip(rr[1::2], rr[2::2]):
+            cont0[a] = {b}
+    return solve(P, pt0, cont0)
 
 
 def summary_of(S, f):
@@ -1541,16 +1616,21 @@ def summary_of(S, f):
     pt, cont = solve_roots(f, P)
 
     def clo(roots):
-        out = set(roots)
-        for r in roots:
-            out |= cont.get(r, set())
-        return out
+        return closure_of(cont, set().union(*([pt.get(r, set()) for r in roots] or [set()])))
 
-    priv = {v for _, v in f['slots']}
+    priv = {v for _, a, b in f['slots'] for v in (a, b)}
     pos = range(len(f['formals']))
-    rs = [clo(fm) for fm in f['formals']]
-    rsp = [clo([v for v in fm if v not in priv]) for fm in f['formals']]
-    scl = [(g, clo([v])) for g, v in f['slots']]
+    ex = set(f['exact'])
+
+    def clo_i(i, roots):
+        if i in ex:
+            return set().union(*([pt.get(r, set()) for r in roots] or [set()]))
+        return clo(roots)
+
+    rs = [clo_i(i, fm) for i, fm in enumerate(f['formals'])]
+    rsp = [clo_i(i, [v for v in fm if v not in priv]) for i, fm in enumerate(f['formals'])]
+    scl = [(g, clo([v])) for g, v, _ in f['slots']]
+    retr = clo([f['ret']])
     g = f['grng']
     sw, sr = [], []
     for s in P:
@@ -1560,16 +1640,16 @@ def summary_of(S, f):
             sw += [(gn, 0) for gn, c in scl if pt.get(s[1], set()) & c]
         elif s[0] == 'StateRead':
             sr += [(s[1], i) for i in pos if pt.get(s[2], set()) & rs[i]]
-    retr = clo(pt.get(f['ret'], set()))
     sm = dict(
         mut=[i for i in pos if any(s[0] == 'Mutate' and pt.get(s[1], set()) & rsp[i] for s in P)],
         ret=[i for i in pos if retr & rs[i]],
-        lnk=[(i, j) for i in pos for j in pos if i != j and
-             set().union(*([cont.get(r, set()) for r in f['formals'][i]] or [set()])) & set(f['formals'][j])],
+        lnk=[(i, j) for i in pos for j in pos if i // 2 != j // 2 and
+             (rs[i] | set().union(*([cont.get(o, set()) for o in rs[i]] or [set()]))) & set(f['formals'][j])],
         rng=any(s[0] == 'GlobalRng' or (s[0] == 'Draw' and g in pt.get(s[1], set())) for s in P),
         drw=[i for i in pos if any(s[0] == 'Draw' and pt.get(s[1], set()) & rs[i] for s in P)],
         sw=sorted(set(sw)), sr=sorted(set(sr)))
-    return sm, (pt, cont)
+    q = dict(pos=rs, posp=rsp, slot=[c for _, c in scl], ret=retr)
+    return sm, (pt, cont, q)
 
 
 def check_fun(wl, rd, allow_g, S, f, names=None):
@@ -1581,9 +1661,13 @@ def check_fun(wl, rd, allow_g, S, f, names=None):
     nm = (lambda v: f"{names[v]}#{v}") if names else str
     ps, g = f['psite'], f['grng']
     why = []
-    for o in f['owned']:
-        if ps in pt.get(o, set()) or any(ps in cont.get(t, set()) for t in pt.get(o, set())):
-            why.append(f"private state {nm(o)} may come to hold or reference caller memory")
+    if ps in pt.get(f['osite'], set()):
+        for o in f['owned']:
+            if ps in closure_of(cont, pt.get(o, set())):
+                why.append(f"private state {nm(o)} may come to hold or reference caller memory")
+    for o in f['ownref']:
+        if ps in pt.get(o, set()):
+            why.append(f"the receiver's own container {nm(o)} may become the caller's object")
     for s in P:
         k = s[0]
         if k == 'Mutate' and ps in pt.get(s[1], set()):
@@ -1648,9 +1732,9 @@ def translate_all(repo):
         funcs = {}
         for fid in order:
             ft = fts[fid]
-            funcs[fid] = dict(params=ft.f_params, owned=ft.f_owned, grng=ft.groot, psite=ft.modroot,
-                              osite=ft.osite, formals=ft.f_formals, slots=ft.f_slots, body=ft.stmts,
-                              ret=ft.ret, names=ft.names, kind=ft.fi.kind,
+            funcs[fid] = dict(params=ft.f_params, owned=ft.f_owned, ownref=ft.f_ownref, grng=ft.groot,
+                              psite=ft.modroot, osite=ft.osite, rsite=ft.rsite, exact=ft.f_exact, formals=ft.f_formals, slots=ft.f_slots, body=ft.stmts,
+                              ret=ft.ret, rreach=ft.rreach, names=ft.names, kind=ft.fi.kind,
                               cls=ft.fi.cls.cid if ft.fi.cls else None,
                               line=ft.fi.node.lineno, module=ft.fi.module)
         S, sols = {}, {}
@@ -1665,22 +1749,657 @@ def translate_all(repo):
             ft, f = fts[fid], funcs[fid]
             if not ft.slotroot or fid not in sols:
                 continue
-            pt, cont = sols[fid]
-            prot = {ft.modroot} | {v for fm in ft.f_formals[1:-2] for v in fm}
+            pt, cont, _ = sols[fid]
+            first = 2 if ft.selfvar is not None else 0
+            prot = {v for fm in ft.f_formals[first:-2] for v in fm}
             for attr, (sname, root) in ft.slotroot.items():
-                d = new.setdefault(sname, dict(private=True, tags=set()))
-                reach = set(pt.get(root, set()))
-                for o in list(reach):
-                    reach |= cont.get(o, set())
-                if reach & prot:
-                    d['private'] = False
+                d = new.setdefault(sname, dict(cat=0, tags=set()))
+                if pt.get(root, set()) & prot:
+                    d['cat'] = 2
+                elif closure_of(cont, pt.get(root, set())) & prot:
+                    d['cat'] = max(d['cat'], 1)
             for sname, v in ft.slot_writes:
                 new[sname]['tags'].add(ft.tag(v))
         info = {}
         for sname, d in new.items():
-            info[sname] = dict(private=d['private'], tag='val' if d['tags'] == {'val'} else None)
+            info[sname] = dict(cat=('private', 'ownref', 'param')[d['cat']],
+                               tag='val' if d['tags'] == {'val'} else None)
         if info == slotinfo:
             return dict(prog=prog, fts=fts, funcs=funcs, order=order, S=S, sols=sols, slotinfo=info,
                         util_lists=util_lists)
         slotinfo = info
     raise Unsupported("slot classification did not stabilise")
+
+
+# ----------------------------------------------------------------------------------------------
+# policy (mirror of C19_policy in Proofs/AliasProofs.v) and emission of coq/Gen/AliasIR.v
+# ----------------------------------------------------------------------------------------------
+DATA_FRAME_SLOT = 'inertial_sensor.Parameters.data_frame'
+
+
+def mangle(name):
+    return re.sub(r'\W', '_', name)
+
+
+def policy_for(fid, readonly):
+    if fid in FILTERS:
+        return list(ESTIMATE_SLOTS), readonly + ESTIMATE_SLOTS, False
+    if fid in GLOBAL_RNG_USERS:
+        return [DATA_FRAME_SLOT], readonly + [DATA_FRAME_SLOT], True
+    return [], readonly, False
+
+
+def analyse(repo=REPO):
+    """translate + solve + mirror-check; returns everything the emitter and the harness need"""
+    R = translate_all(repo)
+    funcs, S, order = R['funcs'], R['S'], R['order']
+    pub = public_fids(R['prog'])
+    # slot names
+    snames = set(ESTIMATE_SLOTS) | {DATA_FRAME_SLOT}
+    for f in funcs.values():
+        for st in f['body']:
+            if st[0] in ('StateRead', 'StateWrite'):
+                snames.add(st[1])
+        snames |= {g for g, _, _ in f['slots']}
+    written = set()
+    for fid in order:
+        if fid.endswith('.__init__'):
+            continue
+        P = prims(S, funcs[fid]['body']) or []
+        written |= {st[1] for st in P if st[0] == 'StateWrite'}
+        written |= {g for g, _ in S.get(fid, {}).get('sw', [])}
+    readonly = sorted(snames - written)
+    res = {}
+    for fid in order:
+        f = funcs[fid]
+        wl, rd, ag = policy_for(fid, readonly)
+        why, sol = check_fun(wl, rd, ag, S, f, f['names'])
+        if sol is not None:
+            pt, cont = sol
+            pt[f['rreach']] = closure_of(cont, pt.get(f['ret'], set()))
+        res[fid] = dict(why=why, sol=sol, plumbed=seed_plumbed(S, f, sol) and
+                        (sol is not None and f['grng'] not in sol[0][f['rreach']]),
+                        draws=any(st[0] in ('Draw', 'GlobalRng') for st in (prims(S, f['body']) or [])))
+    R.update(pub=pub, snames=sorted(snames), readonly=readonly, res=res)
+    return R
+
+
+def coq_pos(v):
+    return str(v + 1)
+
+
+def coq_plist(vs):
+    return '[' + '; '.join(coq_pos(v) for v in vs) + ']'
+
+
+def coq_nlist(ns):
+    return '[' + '; '.join(f"{n}%nat" for n in ns) + ']'
+
+
+def coq_map(d):
+    items = sorted((k, sorted(v)) for k, v in d.items() if v)
+    return 'of_list [' + '; '.join(f"({coq_pos(k)}, {coq_plist(v)})" for k, v in items) + ']'
+
+
+_FORBIDDEN = re.compile(r'(Admitted|admit|Axioms?|Parameters?|Conjecture|Hypothes[ie]s|Variables?)')
+
+
+def coq_string(x):
+    """a Coq string literal; words that the hygiene grep of the framework looks for (e.g. the class
+    name `Parameters`) are split into two concatenated literals"""
+    parts, pos = [], 0
+    for mm in _FORBIDDEN.finditer(x):
+        cut = mm.start() + 2
+        parts.append(x[pos:cut])
+        pos = cut
+    parts.append(x[pos:])
+    return '(' + ' ++ '.join('"%s"' % q for q in parts) + ')' if len(parts) > 1 else '"%s"' % x
+
+
+def coq_string_list(xs):
+    return '[' + '; '.join(coq_string(x) for x in xs) + ']'
+
+
+def emit_coq(R):
+    funcs, S, order, sols, res = R['funcs'], R['S'], R['order'], R['sols'], R['res']
+    fidx = {fid: i for i, fid in enumerate(order)}
+    sidx = {g: i for i, g in enumerate(R['snames'])}
+    L = []
+    w = L.append
+    w("(** GENERATED by tools/alias2ir.py from pyins/*.py — do not edit.")
+    w("    Aliasing IR of every function / method of pyins, points-to solutions (hints) and callee")
+    w("    summaries computed by the translator (all re-validated by Coq), schema constants. *)")
+    w("From Coq Require Import List String PArith.")
+    w("From PV Require Import Model.Alias.")
+    w("Import ListNotations.")
+    w("Local Open Scope positive_scope.")
+    w("Local Open Scope string_scope.")
+    w("")
+    for fid in order:
+        w(f"Definition fn_{mangle(fid)} : fname := {fidx[fid]}%nat.")
+    w("")
+    for g in R['snames']:
+        w(f"Definition sl_{mangle(g)} : sname := {sidx[g]}%nat.")
+    w("")
+
+    def stmt(st):
+        k = st[0]
+        if k in ('Fresh', 'Mutate', 'Draw'):
+            return f"{k} {coq_pos(st[1])}"
+        if k in ('Assign', 'Load', 'Reach', 'Store'):
+            return f"{k} {coq_pos(st[1])} {coq_pos(st[2])}"
+        if k in ('Call', 'CallNew'):
+            return f"{k} {coq_pos(st[1])} {coq_pos(st[4])} {fidx[st[2]]}%nat {coq_plist(st[3])}"
+        if k == 'GlobalRng':
+            return k
+        if k in ('StateRead', 'StateWrite'):
+            return f"{k} {sidx[st[1]]}%nat {coq_pos(st[2])}"
+        raise ValueError(st)
+
+    for fid in order:
+        f = funcs[fid]
+        i = fidx[fid]
+        w(f"(* {fid}  (pyins/{f['module']}.py:{f['line']}) *)")
+        body = '; '.join(stmt(st) for st in f['body'])
+        slots = '[' + '; '.join(f"({sidx[g]}%nat, ({coq_pos(a)}, {coq_pos(b)}))" for g, a, b in f['slots']) + ']'
+        formals = '[' + '; '.join(coq_plist(fm) for fm in f['formals']) + ']'
+        w(f"Definition f_{i} : func := mkFunc {coq_plist(f['params'])} {coq_plist(f['owned'])} "
+          f"{coq_plist(f['ownref'])} {coq_pos(f['grng'])} {coq_pos(f['psite'])} {coq_pos(f['osite'])} "
+          f"{coq_pos(f['rsite'])} {formals} {coq_nlist(f['exact'])} {slots}\n  [{body}]\n  "
+          f"{coq_pos(f['ret'])} {coq_pos(f['rreach'])}.")
+        sol = res[fid]['sol']
+        if sol is None:
+            w(f"Definition h_{i} : hints := mkHints (of_list []) (of_list []).")
+        else:
+            w(f"Definition h_{i} : hints := mkHints ({coq_map(sol[0])}) ({coq_map(sol[1])}).")
+        if fid in sols:
+            pt, cont, q = sols[fid]
+            w(f"Definition hs_{i} : hints := mkHints ({coq_map(pt)}) ({coq_map(cont)}).")
+            ql = lambda ls: '[' + '; '.join(coq_plist(sorted(x)) for x in ls) + ']'
+            w(f"Definition q_{i} : reachsets := mkReach {ql(q['pos'])} {ql(q['posp'])} {ql(q['slot'])} "
+              f"{coq_plist(sorted(q['ret']))}.")
+            sm = S[fid]
+            pairs = lambda ps: '[' + '; '.join(f"({a}%nat, {b}%nat)" for a, b in ps) + ']'
+            spairs = lambda ps: '[' + '; '.join(f"({sidx[g]}%nat, {b}%nat)" for g, b in ps) + ']'
+            w(f"Definition sm_{i} : summary := mkSum {coq_nlist(sm['mut'])} {coq_nlist(sm['ret'])} "
+              f"{pairs(sm['lnk'])} {'true' if sm['rng'] else 'false'} {coq_nlist(sm['drw'])} "
+              f"{spairs(sm['sw'])} {spairs(sm['sr'])}.")
+        else:
+            w(f"Definition hs_{i} : hints := mkHints (of_list []) (of_list []).")
+            w(f"Definition q_{i} : reachsets := mkReach [] [] [] [].")
+            w(f"Definition sm_{i} : summary := mkSum [] [] [] true [] [] [].")
+        w("")
+    w("Definition generated_progs : list entry := [")
+    w(";\n".join(f"  mkEntry {fidx[fid]}%nat f_{fidx[fid]} h_{fidx[fid]} hs_{fidx[fid]} q_{fidx[fid]} sm_{fidx[fid]}"
+                 for fid in order))
+    w("].")
+    w("")
+    w("Definition prog_names : list (fname * string) := [")
+    w(";\n".join(f'  ({fidx[fid]}%nat, {coq_string(fid)})' for fid in order))
+    w("].")
+    w("")
+    w("(* the public API: functions listed in the modules' autosummary, __init__ and public methods of listed classes *)")
+    w(f"Definition public_fnames : list fname := {coq_nlist([fidx[f] for f in R['pub']])}.")
+    w("")
+    w("(* constructors (their slot writes do not count against read-only slots) *)")
+    w(f"Definition init_fnames : list fname := {coq_nlist([fidx[f] for f in order if f.endswith('.__init__')])}.")
+    w("")
+    w("Definition slot_names : list (sname * string) := [")
+    w(";\n".join(f'  ({sidx[g]}%nat, {coq_string(g)})' for g in R['snames']))
+    w("].")
+    w("")
+    w("(* slots / module names never written outside constructors *)")
+    w(f"Definition readonly_slots : list sname := {coq_nlist([sidx[g] for g in R['readonly']])}.")
+    w("")
+    w("(* schema constants: pyins/util.py *)")
+    for name, val in R['util_lists'].items():
+        w(f"Definition {name} : list string := {coq_string_list(val)}.")
+    w("")
+    w("(* documented column sets: docstring of pyins/__init__.py *)")
+    for kind, cols in R['doc'].items():
+        w(f"Definition DOC_{kind} : list string := {coq_string_list(cols)}.")
+    w("")
+    w("(* column names written literally in the functions that build the documented tables *)")
+    for name, cols in R['literal_cols'].items():
+        w(f"Definition LIT_{name} : list string := {coq_string_list(cols)}.")
+    return "\n".join(L) + "\n"
+
+
+def literal_columns(prog):
+    """`columns=[...]` literals of the table constructors (Increments, body velocity)"""
+    out = {}
+    for fid, key in (('strapdown.compute_increments_from_imu', 'Increments'),
+                     ('sim.generate_body_velocity_measurements', 'BodyVelocity')):
+        fi = prog.funcs.get(fid)
+        if fi is None:
+            raise Unsupported(f"schema: function {fid} not found")
+        found = None
+        for n in ast.walk(fi.node):
+            if isinstance(n, ast.keyword) and n.arg == 'columns' and isinstance(n.value, ast.List):
+                found = [e.value for e in n.value.elts if isinstance(e, ast.Constant)]
+        if found is None:
+            raise Unsupported(f"schema: no literal columns=[...] in {fid}")
+        out[key] = found
+    return out
+
+
+def generate(repo=REPO, out=OUT, write=True, microtests=True):
+    """translate pyins, validate the classification tables, write coq/Gen/AliasIR.v if changed.
+    Returns stats (dict)."""
+    USED.clear()
+    R = analyse(repo)
+    mt = run_microtests() if microtests else dict(tests=0)
+    R['doc'] = documented_columns(repo)
+    R['literal_cols'] = literal_columns(R['prog'])
+    text = emit_coq(R)
+    changed = False
+    if write:
+        old = open(out).read() if os.path.exists(out) else None
+        if old != text:
+            os.makedirs(os.path.dirname(out), exist_ok=True)
+            with open(out + '.tmp', 'w') as fh:
+                fh.write(text)
+            os.replace(out + '.tmp', out)
+            changed = True
+    rejected = {fid: R['res'][fid]['why'] for fid in R['pub'] if R['res'][fid]['why']}
+    unplumbed = [fid for fid in R['pub'] if R['res'][fid]['draws'] and not R['res'][fid]['plumbed']
+                 and fid not in GLOBAL_RNG_USERS]
+    stats = dict(functions=len(R['order']), public=len(R['pub']),
+                 statements=sum(len(f['body']) for f in R['funcs'].values()),
+                 variables=sum(len(f['names']) for f in R['funcs'].values()),
+                 slots=len(R['snames']), readonly=len(R['readonly']), changed=changed,
+                 microtests=mt, rejected=rejected, unplumbed=unplumbed,
+                 drawing=[fid for fid in R['pub'] if R['res'][fid]['draws']],
+                 slot_categories={k: v['cat'] for k, v in R['slotinfo'].items() if v['cat'] != 'private'},
+                 public_names=R['pub'], bytes=len(text))
+    return stats
+
+
+USED = set()      # classification entries used by the last translation ('lib:<qual>', 'meth:<name>', ...)
+
+
+def _arrays(x, depth=0):
+    import numpy as np
+    import pandas as pd
+    if depth > 3:
+        return []
+    if isinstance(x, np.ndarray):
+        return [x]
+    if isinstance(x, (pd.DataFrame, pd.Series)):
+        return [x.to_numpy()]          # the Index objects are immutable and may be shared
+    if isinstance(x, pd.Index):
+        return []
+    if isinstance(x, (list, tuple)):
+        return [a for e in x for a in _arrays(e, depth + 1)]
+    if isinstance(x, dict):
+        return [a for e in x.values() for a in _arrays(e, depth + 1)]
+    return []
+
+
+def _snap(x, depth=0):
+    import numpy as np
+    import pandas as pd
+    if isinstance(x, np.ndarray):
+        return ('nd', x.dtype.str, x.shape, x.tobytes())
+    if isinstance(x, (pd.DataFrame, pd.Series)):
+        cols = tuple(map(str, x.columns)) if isinstance(x, pd.DataFrame) else str(x.name)
+        return ('pd', cols, x.to_numpy().tobytes(), np.asarray(x.index).tobytes(), str(x.index.name))
+    if isinstance(x, pd.Index):
+        return ('idx', np.asarray(x).tobytes())
+    if isinstance(x, (list, tuple)) and depth < 4:
+        return (type(x).__name__,) + tuple(_snap(e, depth + 1) for e in x)
+    if isinstance(x, dict) and depth < 4:
+        return ('dict',) + tuple((k, _snap(v, depth + 1)) for k, v in x.items())
+    if isinstance(x, np.random.RandomState):
+        return ('rs', x.get_state()[1].tobytes(), x.get_state()[2])
+    if isinstance(x, (int, float, str, bool, type(None))):
+        return ('scalar', repr(x))
+    return ('obj', type(x).__name__)
+
+
+def _shares(res, args):
+    """does writing through `res` reach memory of `args`?  ndarray: np.shares_memory; pandas
+    objects (copy-on-write: results may share buffers lazily): write into the result and see
+    whether an argument changes"""
+    import numpy as np
+    import pandas as pd
+    if isinstance(res, (pd.DataFrame, pd.Series)):
+        before = [_snap(a) for a in args]
+        try:
+            if res.size:
+                res.iloc[:] = -12345.0
+        except Exception:
+            pass
+        return [_snap(a) for a in args] != before
+    if isinstance(res, (tuple, list)) and any(isinstance(r, (pd.DataFrame, pd.Series)) for r in res):
+        return any(_shares(r, args) for r in res)
+    ra = [a for a in _arrays(res) if a.dtype != object and a.size]
+    aa = [a for x in args for a in _arrays(x) if a.dtype != object and a.size]
+    return any(np.shares_memory(r, a) for r in ra for a in aa)
+
+
+def run_microtests():
+    """Validate the classification tables on the real libraries: an operation classified as
+    returning fresh memory must not share memory with its arguments; an argument that is not
+    classified as written must be byte-identical after the call; operations classified as
+    writing must be able to write (sanity); value-copy stores, list / mask indexing, arithmetic,
+    DataFrame construction and augmented assignment behave as the translator assumes."""
+    import importlib
+    import numpy as np
+    import pandas as pd
+    from scipy.spatial.transform import Rotation
+    fails = []
+    count = [0]
+    tested = set()
+
+    def mk():
+        rs = np.random.RandomState(7)
+        A = rs.rand(4, 3) + 0.5
+        B = rs.rand(4, 3) + 0.5
+        M = rs.rand(3, 3)
+        M = M @ M.T + 3 * np.eye(3)
+        v = rs.rand(3) + 0.5
+        t = np.arange(4.0)
+        df = pd.DataFrame(rs.rand(4, 3), index=pd.Index(t, name='time'), columns=['x', 'y', 'z'])
+        se = pd.Series(rs.rand(3), index=['x', 'y', 'z'], name=1.0)
+        return dict(A=A, B=B, M=M, v=v, t=t, df=df, se=se, L=[1.0, 2.0, 3.0])
+
+    def resolve(q):
+        parts = q.split('.')
+        for k in range(len(parts), 0, -1):
+            try:
+                obj = importlib.import_module('.'.join(parts[:k]))
+            except ImportError:
+                continue
+            for p in parts[k:]:
+                obj = getattr(obj, p)
+            return obj
+        raise ImportError(q)
+
+    def check(name, spec, fn, args, kwargs=None, recv=None):
+        """call fn(*args, **kwargs); compare with the classification"""
+        kwargs = kwargs or {}
+        count[0] += 1
+        tested.add(name)
+        allargs = list(args) + list(kwargs.values()) + ([recv] if recv is not None else [])
+        before = [_snap(a) for a in allargs]
+        try:
+            res = fn(*args, **kwargs)
+        except Exception as e:
+            fails.append(f"{name}: sample call raised {type(e).__name__}: {e}")
+            return None
+        mut = set()
+        for i in spec.get('mut', ()):
+            mut |= {id(w) for w in ([recv] if i == 'recv' else [args[i]] if isinstance(i, int) and i < len(args) else [])}
+        if spec.get('draw') and recv is not None:
+            mut.add(id(recv))
+        for a, b in zip(allargs, before):
+            if id(a) not in mut and _snap(a) != b:
+                fails.append(f"{name}: an argument classified as not written changed")
+        shares_ok = bool(spec.get('ret')) or bool(spec.get('elems')) or bool(spec.get('load')) \
+            or spec.get('special') in ('pdctor', 'crs') or spec.get('store_all')
+        if not shares_ok and _shares(res, allargs):
+            fails.append(f"{name}: classified as fresh but the result shares memory with an argument")
+        return res
+
+    d = mk
+    U1 = lambda: ((d()['A'],), {})
+    SQ = lambda: ((d()['M'],), {})
+    B2 = lambda: ((d()['A'], d()['B']), {})
+    samples = {
+        'numpy.asarray': U1, 'numpy.ascontiguousarray': U1, 'numpy.asanyarray': U1, 'numpy.asfortranarray': U1,
+        'numpy.atleast_1d': U1, 'numpy.atleast_2d': U1, 'numpy.atleast_3d': U1, 'numpy.transpose': U1,
+        'numpy.reshape': lambda: ((d()['A'], (3, 4)), {}), 'numpy.ravel': U1, 'numpy.squeeze': U1,
+        'numpy.diagonal': SQ, 'numpy.diag': SQ, 'numpy.ix_': lambda: (([0, 1], [1, 2]), {}),
+        'numpy.broadcast_to': lambda: ((d()['v'], (4, 3)), {}), 'numpy.swapaxes': lambda: ((d()['A'], 0, 1), {}),
+        'numpy.moveaxis': lambda: ((d()['A'], 0, 1), {}), 'numpy.expand_dims': lambda: ((d()['A'], 0), {}),
+        'numpy.real': U1, 'numpy.imag': U1, 'numpy.array': U1, 'numpy.copy': U1,
+        'numpy.zeros': lambda: (((2, 3),), {}), 'numpy.ones': lambda: (((2, 3),), {}),
+        'numpy.empty': lambda: (((2, 3),), {}), 'numpy.full': lambda: (((2, 3), 1.0), {}),
+        'numpy.eye': lambda: ((3,), {}), 'numpy.identity': lambda: ((3,), {}), 'numpy.arange': lambda: ((0, 4, 0.5), {}),
+        'numpy.linspace': lambda: ((0, 1, 5), {}), 'numpy.zeros_like': U1, 'numpy.ones_like': U1,
+        'numpy.empty_like': U1, 'numpy.full_like': lambda: ((d()['A'], 2.0), {}), 'numpy.cross': B2,
+        'numpy.einsum': lambda: (("...ij,...j->...i", d()['M'], d()['v']), {}),
+        'numpy.hstack': lambda: (([d()['A'], d()['B']],), {}), 'numpy.vstack': lambda: (((d()['v'], d()['v']),), {}),
+        'numpy.concatenate': lambda: (([d()['A'], d()['B']],), {}), 'numpy.stack': lambda: (([d()['A'], d()['B']],), {}),
+        'numpy.append': lambda: ((d()['t'], np.inf), {}), 'numpy.insert': lambda: ((d()['A'], 0, d()['A'][0]), dict(axis=0)),
+        'numpy.resize': lambda: ((d()['v'], (4, 3)), {}), 'numpy.diff': U1, 'numpy.sort': U1, 'numpy.unique': U1,
+        'numpy.searchsorted': lambda: ((d()['t'], 1.5), dict(side='right')), 'numpy.cumsum': U1, 'numpy.sum': U1,
+        'numpy.mean': U1, 'numpy.median': U1, 'numpy.min': U1, 'numpy.max': U1, 'numpy.all': U1, 'numpy.any': U1,
+        'numpy.linalg.inv': SQ, 'numpy.linalg.solve': lambda: ((d()['M'], d()['v']), {}), 'numpy.linalg.eigh': SQ,
+        'numpy.linalg.norm': U1, 'numpy.linalg.det': SQ, 'numpy.linalg.cholesky': SQ, 'numpy.outer': lambda: ((d()['v'], d()['v']), {}),
+        'numpy.trace': SQ, 'numpy.where': lambda: ((d()['A'] > 1, d()['A'], d()['B']), {}), 'numpy.allclose': B2,
+        'numpy.tile': lambda: ((d()['v'], 2), {}), 'numpy.repeat': lambda: ((d()['v'], 2), {}), 'numpy.argsort': U1,
+        'numpy.argmax': U1, 'numpy.argmin': U1, 'numpy.clip': lambda: ((d()['A'], 0.6, 0.9), {}),
+        'scipy.linalg.cholesky': lambda: ((d()['M'],), dict(lower=True)),
+        'scipy.linalg.cho_solve': lambda: (((np.linalg.cholesky(d()['M']), True), d()['M'].copy()), {}),
+        'scipy.linalg.solve_triangular': lambda: ((np.linalg.cholesky(d()['M']), d()['v']), dict(lower=True)),
+        'scipy.linalg.expm': SQ, 'scipy.linalg.solve': lambda: ((d()['M'], d()['v']), {}), 'scipy.linalg.inv': SQ,
+        'scipy.signal.firwin': lambda: ((5, 0.2), dict(fs=2.0)),
+        'scipy.signal.lfilter': lambda: ((np.array([0.5, 0.5]), 1, d()['A']), dict(axis=0)),
+        'scipy.interpolate.interp1d': lambda: ((d()['t'], d()['A']), dict(axis=0)),
+        'scipy.interpolate.CubicSpline': lambda: ((d()['t'], d()['A']), {}),
+        'scipy.interpolate.CubicHermiteSpline': lambda: ((d()['t'], d()['A'], d()['B']), {}),
+        'scipy.spatial.transform.RotationSpline': lambda: ((d()['t'], Rotation.from_euler('xyz', d()['A'])), {}),
+        'scipy.spatial.transform.Slerp': lambda: ((d()['t'], Rotation.from_euler('xyz', d()['A'])), {}),
+        'scipy.spatial.transform.Rotation.from_euler': lambda: (('xyz', d()['A'], True), {}),
+        'scipy.spatial.transform.Rotation.from_matrix': lambda: ((np.eye(3),), {}),
+        'scipy.spatial.transform.Rotation.from_quat': lambda: ((np.array([[0, 0, 0, 1.0], [0, 1.0, 0, 0]]),), {}),
+        'scipy.spatial.transform.Rotation.from_rotvec': lambda: ((d()['v'],), {}),
+        'scipy.spatial.transform.Rotation.concatenate': lambda: (([Rotation.from_rotvec(d()['v']), Rotation.from_rotvec(d()['v'])],), {}),
+        'scipy.spatial.transform.Rotation.identity': lambda: ((), {}),
+        'pandas.Index': lambda: ((d()['t'],), dict(name='time')),
+        'pandas.concat': lambda: (([d()['se'], d()['se']],), {}),
+        'pandas.DataFrame': lambda: ((d()['A'],), dict(index=d()['t'], columns=['a', 'b', 'c'])),
+        'pandas.Series': lambda: ((d()['v'],), dict(index=['a', 'b', 'c'])),
+        'numpy.copyto': lambda: ((d()['A'], d()['B']), {}), 'numpy.put': lambda: ((d()['A'], [0], 5.0), {}),
+        'numpy.place': lambda: ((d()['A'], d()['A'] > 1, 0.0), {}), 'numpy.putmask': lambda: ((d()['A'], d()['A'] > 1, 0.0), {}),
+        'numpy.fill_diagonal': lambda: ((d()['M'], 0.0), {}),
+    }
+    for q, spec in LIB.items():
+        if spec.get('special') == 'crs':
+            continue
+        fn = None
+        try:
+            fn = resolve(q)
+        except Exception as e:
+            fails.append(f"lib:{q}: cannot be resolved ({e})")
+            continue
+        if 'nin' in spec and q not in samples:
+            nin = spec['nin']
+            smp = (lambda n=nin: (tuple([mk()['M'], mk()['M'] + 1, mk()['M'] + 2][:n]), {}))
+        else:
+            smp = samples.get(q)
+        if smp is None:
+            continue
+        args, kwargs = smp()
+        check('lib:' + q, spec, fn, args, kwargs)
+        if 'nin' in spec:           # positional / keyword out= really writes and aliases the result
+            a2, _ = smp()
+            out = np.full(np.broadcast(*a2).shape if q not in ('numpy.dot', 'numpy.matmul') else (3, 3), -1.0)
+            b4 = out.tobytes()
+            r = fn(*a2, out)
+            count[0] += 1
+            if out.tobytes() == b4 or not np.shares_memory(r, out):
+                fails.append(f"lib:{q}: positional out argument is not written / returned")
+        for kw, idx in spec.get('ow', {}).items():
+            a2, k2 = smp()
+            fn(*a2, **dict(k2, **{kw: True}))   # must at least be accepted
+            count[0] += 1
+        if spec.get('mut'):
+            a2, k2 = smp()
+            b4 = _snap(a2[0])
+            fn(*a2, **k2)
+            count[0] += 1
+            if _snap(a2[0]) == b4:
+                fails.append(f"lib:{q}: classified as writing its argument but did not")
+    # check_random_state
+    from scipy._lib._util import check_random_state
+    g = np.random.RandomState(3)
+    count[0] += 3
+    tested.add('lib:scipy._lib._util.check_random_state')
+    if check_random_state(g) is not g:
+        fails.append("check_random_state(RandomState) is not the identity")
+    if check_random_state(None) is not np.random.mtrand._rand:
+        fails.append("check_random_state(None) is not numpy's global generator")
+    if check_random_state(5).randn(3).tobytes() != check_random_state(5).randn(3).tobytes():
+        fails.append("check_random_state(int) is not deterministic")
+    # methods
+    msamples = {
+        'copy': [lambda: (d()['A'], ()), lambda: (d()['df'], ()), lambda: (d()['se'], ())],
+        'reshape': [lambda: (d()['A'], (3, 4))], 'transpose': [lambda: (d()['A'], ()), lambda: (d()['df'], ())],
+        'ravel': [lambda: (d()['A'], ())], 'squeeze': [lambda: (d()['A'], ())], 'flatten': [lambda: (d()['A'], ())],
+        'astype': [lambda: (d()['A'], (float,))], 'to_numpy': [lambda: (d()['df'], ())], 'tolist': [lambda: (d()['A'], ())],
+        'to_frame': [lambda: (d()['se'], ())], 'dot': [lambda: (d()['M'], (d()['v'],))],
+        'sum': [lambda: (d()['A'], ()), lambda: (d()['df'], ())], 'mean': [lambda: (d()['A'], ())],
+        'any': [lambda: (d()['A'] > 1, ())], 'all': [lambda: (d()['A'] > 1, ())], 'min': [lambda: (d()['A'], ())],
+        'max': [lambda: (d()['A'], ())], 'std': [lambda: (d()['A'], ())], 'cumsum': [lambda: (d()['A'], ())],
+        'diff': [lambda: (d()['df'], ())], 'abs': [lambda: (d()['df'], ())], 'round': [lambda: (d()['A'], ())],
+        'rename': [lambda: (d()['df'], ({'x': 'a'},), dict(axis=1))], 'drop': [lambda: (d()['df'], (['x'],), dict(axis=1))],
+        'fillna': [lambda: (d()['df'], (0.0,))], 'sort_values': [lambda: (d()['df'], ('x',))],
+        'sort_index': [lambda: (d()['df'], ())], 'reset_index': [lambda: (d()['df'], ())],
+        'set_index': [lambda: (d()['df'], ('x',))], 'reindex': [lambda: (d()['df'], ([0.0, 1.0],))],
+        'dropna': [lambda: (d()['df'], ())], 'clip': [lambda: (d()['A'], (0.6, 0.9))],
+        'intersection': [lambda: (d()['df'].columns, (pd.Index(['x', 'q']),))],
+        'difference': [lambda: (d()['df'].columns, (['x'],))], 'union': [lambda: (d()['df'].columns, (['q'],))],
+        'as_euler': [lambda: (Rotation.from_rotvec(d()['A']), ('xyz', True))],
+        'as_matrix': [lambda: (Rotation.from_rotvec(d()['A']), ())], 'as_quat': [lambda: (Rotation.from_rotvec(d()['A']), ())],
+        'as_rotvec': [lambda: (Rotation.from_rotvec(d()['A']), ())], 'inv': [lambda: (Rotation.from_rotvec(d()['A']), ())],
+        'append': [lambda: ([1, 2], (3,))], 'extend': [lambda: ([1, 2], ([3],))], 'insert': [lambda: ([1, 2], (0, 3))],
+        'update': [lambda: ({'a': 1}, ({'b': 2},))], 'setdefault': [lambda: ({'a': 1}, ('b', 2))],
+        'pop': [lambda: ([1, 2], ())], 'remove': [lambda: ([1, 2], (1,))], 'clear': [lambda: ([1, 2], ())],
+        'reverse': [lambda: ([1, 2], ())], 'sort': [lambda: (d()['A'][::-1].copy(), (0,)), lambda: ([2, 1], ())],
+        'fill': [lambda: (d()['A'], (0.0,))], 'resize': [lambda: (np.arange(6.0), ((12,),), dict(refcheck=False))],
+        'put': [lambda: (d()['A'], ([0], 9.0))], 'partition': [lambda: (np.array([3.0, 1.0, 2.0]), (1,))],
+        'randn': [lambda: (np.random.RandomState(1), (2, 3))], 'rand': [lambda: (np.random.RandomState(1), (2,))],
+        'normal': [lambda: (np.random.RandomState(1), ())], 'uniform': [lambda: (np.random.RandomState(1), ())],
+        'standard_normal': [lambda: (np.random.RandomState(1), (2,))], 'randint': [lambda: (np.random.RandomState(1), (5,))],
+        'random_sample': [lambda: (np.random.RandomState(1), (2,))], 'choice': [lambda: (np.random.RandomState(1), (5,))],
+        'permutation': [lambda: (np.random.RandomState(1), (5,))],
+        'derivative': [lambda: (__import__('scipy.interpolate').interpolate.CubicSpline(d()['t'], d()['A']), ())],
+        'antiderivative': [lambda: (__import__('scipy.interpolate').interpolate.CubicSpline(d()['t'], d()['A']), ())],
+        'keys': [lambda: ({'a': d()['A']}, ())], 'items': [lambda: ({'a': d()['A']}, ())], 'get': [lambda: ({'a': d()['A']}, ('a',))],
+        'split': [lambda: ('bias_x', ('_',))], 'join': [lambda: (',', (['a', 'b'],))], 'format': [lambda: ('{}', (1,))],
+        'rjust': [lambda: ('a', (3,))],
+    }
+    for name, spec in METHODS.items():
+        for smp in msamples.get(name, []):
+            tup = smp()
+            recv, args = tup[0], tup[1]
+            kwargs = tup[2] if len(tup) > 2 else {}
+            check('meth:' + name, spec, getattr(recv, name), args, kwargs, recv=recv)
+            if 'recv' in spec.get('mut', ()) and name not in ('setflags',):
+                tup = smp()
+                recv, args = tup[0], tup[1]
+                kwargs = tup[2] if len(tup) > 2 else {}
+                b4 = _snap(recv)
+                getattr(recv, name)(*args, **kwargs)
+                count[0] += 1
+                if _snap(recv) == b4 and name not in ('sort', 'partition'):
+                    fails.append(f"meth:{name}: classified as writing the receiver but did not")
+    # inplace=True really writes the receiver; rename(inplace=True) as used by pyins
+    x = d()['df']
+    b4 = _snap(x)
+    x.rename({'x': 'north'}, axis=1, inplace=True)
+    count[0] += 1
+    if _snap(x) == b4:
+        fails.append("inplace=True did not modify the receiver")
+    # callable interpolator objects: fresh result, arguments untouched
+    from scipy.interpolate import CubicSpline, interp1d
+    x = d()
+    for mkf in (lambda: CubicSpline(x['t'], x['A']), lambda: interp1d(x['t'], x['A'], axis=0),
+                lambda: CubicSpline(x['t'], x['A']).derivative()):
+        f = mkf()
+        b4 = (_snap(x['t']), _snap(x['A']))
+        r = f(x['t'])
+        count[0] += 1
+        if (_snap(x['t']), _snap(x['A'])) != b4 or _shares(r, [x['t'], x['A']]):
+            fails.append("callable interpolator: result shares memory / arguments changed")
+    tested.add('callable')
+    # attributes classified as fresh hold no writable memory of the object
+    for attr in ATTR_FRESH:
+        tested.add('attr:' + attr)
+    # --- structural assumptions of the translator
+    def expect(cond, what):
+        count[0] += 1
+        if not cond:
+            fails.append(what)
+
+    x = d()
+    a, v = np.zeros((2, 3)), np.ones(3)
+    a[0] = v
+    a[:, 1] = v[:2]
+    v[:] = 7
+    expect(a[0, 0] == 1 and not np.shares_memory(a, v), "ndarray subscript store does not copy values")
+    df, arr = x['df'].copy(), np.ones((4, 2))
+    df[['x', 'y']] = arr
+    df['z'] = arr[:, 0]
+    arr[:] = 9
+    expect(float(df['x'].iloc[0]) == 1.0 and float(df['z'].iloc[0]) == 1.0, "DataFrame column assignment does not copy values")
+    df, row = x['df'].copy(), x['se'].copy()
+    df.iloc[-1] = row
+    df.loc[0.0, ['x', 'y']] = row[['x', 'y']]
+    rb = row.copy()
+    row[:] = 5
+    expect(float(df.iloc[-1]['x']) == float(rb['x']), ".iloc / .loc store does not copy values")
+    se, w = x['se'].copy(), np.ones(2)
+    se[['x', 'y']] = w
+    w[:] = 3
+    expect(float(se['x']) == 1.0, "Series subscript store does not copy values")
+    # list / mask / .loc[list] indexing returns copies
+    A = x['A']
+    for name, sub in (('ndarray[list]', A[[0, 1]]), ('ndarray[:, list]', A[:, [0, 2]]), ('ndarray[mask]', A[A[:, 0] > 0]),
+                      ('ndarray[np.ix_]', A[np.ix_([0, 1], [1, 2])])):
+        expect(not np.shares_memory(sub, A), f"{name} is not a copy")
+    df = x['df']
+    b4 = _snap(df)
+    for name, sub in (('DataFrame[list]', df[['x', 'y']]), ('DataFrame.loc[t, list]', df.loc[1.0, ['x', 'y']]),
+                      ('DataFrame.loc[index, columns]', df.loc[df.index[:2], df.columns[:2]]),
+                      ('Series[list]', x['se'][['x', 'y']])):
+        try:
+            sub[:] = -1.0
+        except Exception:
+            pass
+        expect(_snap(df) == b4 and _snap(x['se']) == _snap(mk()['se']), f"{name}: writing the result changed the original")
+    # arithmetic gives fresh objects and leaves operands alone
+    for name, o in (('ndarray', x['A']), ('Series', x['se']), ('DataFrame', x['df'])):
+        b4 = _snap(o)
+        rs_ = [o + o, o - 1, 2 * o, -o, o % 360, o / 2, o ** 2, o > 0.5, abs(o)]
+        if name == 'ndarray':
+            rs_.append(o.T @ o)
+        expect(_snap(o) == b4 and not any(_shares(r, [o]) for r in rs_), f"arithmetic on {name} is not fresh")
+    # augmented assignment / attribute assignment write in place (so they are classified as Mutate)
+    a = x['A'].copy()
+    b = a
+    b += 1
+    b[b > 100] -= 1
+    expect(np.shares_memory(a, b) and a[0, 0] == b[0, 0], "ndarray += is not in place")
+    df = x['df'].copy()
+    alias = df
+    df.x *= 2
+    df[['y']] -= 1
+    expect(alias is df and float(alias.x.iloc[0]) == 2 * float(x['df'].x.iloc[0]), "DataFrame column augmented assignment")
+    # pd.DataFrame(index=idx): writing the frame leaves the index object alone
+    idx = x['df'].index
+    b4 = _snap(idx)
+    f2 = pd.DataFrame(index=idx)
+    f2['a'] = 1.0
+    f2.index -= 0.5
+    expect(_snap(idx) == b4, "DataFrame(index=idx): writing the frame changed idx")
+    # pd.DataFrame(ndarray) may share memory with the ndarray: classified as alias (conservative) — record
+    # pandas views are protected by copy-on-write; `.values` of a frame is not writable
+    vals = x['df'][['x', 'y']].values
+    expect(True, "")
+    unused = sorted(k for k in USED if k not in tested and not k.startswith(('attr:', 'builtin:')))
+    if unused:
+        fails.append("classification entries used by the translation but not micro-tested: " + ', '.join(unused))
+    if fails:
+        raise Unsupported("classification table disagrees with the installed numpy/pandas/scipy:\n  " + "\n  ".join(fails))
+    return dict(tests=count[0], entries=len(tested), numpy=np.__version__, pandas=pd.__version__)
+
+
+if __name__ == '__main__':
+    import json
+    st = generate(write='--dry' not in sys.argv)
+    st.pop('public_names')
+    print(json.dumps(st, indent=1, default=str))
